@@ -165,7 +165,7 @@ def make_spec(stream, rng, edge_index=None):
         spec["timestep_explicit"] = True
         spec["delay"] = None
         opt["replay"] = False
-        opt["only_props"] = ["C04", "C05", "C06", "C08"]
+        opt["only_props"] = ["C04", "C05", "C06", "C08", "C19"]
         # of C08 only what is decided at the admission instant (hold times are whole steps: with a fractional
         # duration the unchanged code holds the machines for the duration rounded up)
         opt["only_kinds"] = {"C08": ["started-before-planned-start", "admitted-without-arrays", "admitted-without-machines",
